@@ -16,7 +16,8 @@ struct is "only declared" there) and derives
                    are left out (their symbol size changes).
 abidiff --redundant is run with --headers-dir1/2 (mode "dir"), with --header-file1/2 <path of pub.h> (mode "file"), and with the
 public header named pub.hh next to an unrelated include/version.h (mode "hh"), each with and without --drop-private-types.
-Guard: publicChanged is a subset of the reported interfaces (and the change bit is set), privateChanged is disjoint from them.
+Guard: what the run without header options reports of publicChanged is still reported (and the change bit is set), privateChanged
+is disjoint from the reported interfaces.
 
 Readings: --redundant is used so that redundancy folding does not hide a public change behind another interface; pairs whose
 mutated type lies in a union are discarded (known finding C05-same-size-change-in-union); interfaces that reach a public type
@@ -111,7 +112,7 @@ def main():
     S.tick(c, "validated")
     live = [e for e in events if not e.get("_skipped")]
     c.cov["evaluations"] = len(live)
-    c.cov["distinct_nontrivial"] = len({(e["case"], e["comp"], e["mode"]) for e in live if e["publicChanged"]})
+    c.cov["distinct_nontrivial"] = len({(e["case"], e["comp"], e["mode"]) for e in live if set(e["publicChanged"]) & set(e["reportedWithoutHeaders"])})
     rej = {}
     for e in live:
         if "_verdict" in e:
